@@ -1,0 +1,69 @@
+//go:build verif
+
+// Contracts for the deductive verifier in /verif (govc). Comment-only.
+
+package table
+
+//@ # ---- table builder (C15): view = key set (bitmap), one offset per key in key order, the value bytes ----
+//@ predicate bOK(b *storeBuilder) bool = b.writer != nil && b.offset != nil && b.keys != nil && encoding.foEncOK(b.offset) && b.writer.n >= 0 && b.writer.n <= 4294967295 && b.keys.card == len(b.offset.values) && len(b.offset.values) < 1099511627776 && (b.first ==> (b.keys.card == 0 && all(k, "uint32", !b.keys.has[k]))) && (!b.first ==> (b.keys.card > 0 && b.keys.has[b.maxKey] && b.keys.has[b.minKey] && b.minKey <= b.maxKey && all(k, "uint32", b.keys.has[k] ==> (b.minKey <= k && k <= b.maxKey)))) && forall(i, 0, len(b.offset.values), b.offset.values[i] <= b.writer.n)
+//@ func storeBuilder.ensureIncreasingKey
+//@   prop C15
+//@   arith math
+//@   ensures[only_keys_above_the_last_one_are_accepted] result == (b.first || key > b.maxKey)
+//@ end
+//@ func storeBuilder.afterWrite
+//@   prop C15
+//@   arith math
+//@   requires b.offset != nil && b.keys != nil && encoding.foEncOK(b.offset) && offset >= 0 && offset <= 4294967295 && len(b.offset.values) < 1099511627776 && (b.first || key > b.maxKey)
+//@   modifies b.offset.values, b.offset.max, b.keys.has, b.keys.card, b.minKey, b.maxKey, b.first
+//@   ensures[key_recorded_with_its_offset] b.keys.has == store(old(b.keys.has), key, true) && len(b.offset.values) == old(len(b.offset.values)) + 1 && b.offset.values[old(len(b.offset.values))] == offset && forall(i, 0, old(len(b.offset.values)), b.offset.values[i] == old(b.offset.values[i]))
+//@   ensures[min_max_and_count_follow] b.maxKey == key && !b.first && (old(b.first) ==> b.minKey == key) && (!old(b.first) ==> b.minKey == old(b.minKey)) && b.keys.card == old(b.keys.card) + ite(old(b.keys.has)[key], 0, 1) && encoding.foEncOK(b.offset)
+//@ end
+//@ func storeBuilder.Add
+//@   prop C15
+//@   arith math
+//@   requires bOK(b) && b.writer.n + len(value) <= 4294967295 && len(b.offset.values) < 1099511627775
+//@   modifies b.offset.values, b.offset.max, b.keys.has, b.keys.card, b.minKey, b.maxKey, b.first, b.writer.out, b.writer.n
+//@   ensures[out_of_order_key_is_rejected_without_disturbing_anything] !(old(b.first) || key > old(b.maxKey)) ==> (result == nil && b.keys.has == old(b.keys.has) && b.keys.card == old(b.keys.card) && len(b.offset.values) == old(len(b.offset.values)) && b.writer.n == old(b.writer.n) && b.writer.out == old(b.writer.out) && b.minKey == old(b.minKey) && b.maxKey == old(b.maxKey))
+//@   ensures[accepted_key_is_recorded_at_the_position_of_its_bytes] ((old(b.first) || key > old(b.maxKey)) && result == nil) ==> (b.keys.has == store(old(b.keys.has), key, true) && b.keys.card == old(b.keys.card) + 1 && len(b.offset.values) == old(len(b.offset.values)) + 1 && b.offset.values[old(len(b.offset.values))] == old(b.writer.n) && b.writer.n == old(b.writer.n) + len(value) && all(q, (q >= old(b.writer.n) && q < b.writer.n) ==> b.writer.out[q] == value[q - old(b.writer.n)]) && b.maxKey == key)
+//@   ensures[earlier_entries_untouched] forall(i, 0, old(len(b.offset.values)), b.offset.values[i] == old(b.offset.values[i])) && all(i, (i >= 0 && i < old(b.writer.n)) ==> b.writer.out[i] == old(b.writer.out)[i])
+//@   ensures[builder_stays_consistent] result == nil ==> bOK(b)
+//@ end
+
+//@ # ---- streaming writer: Prepare(key) .. Write* .. Commit; a rejected key writes nothing and records nothing --
+//@ predicate swOK(sw *streamWriter) bool = sw.builder != nil && sw.crc32 != nil && bOK(sw.builder)
+//@ func streamWriter.Prepare
+//@   prop C15
+//@   arith math
+//@   requires swOK(sw)
+//@   modifies sw.badKey, sw.offset, sw.key, sw.size
+//@   ensures[rejects_out_of_order_keys] sw.badKey == !(sw.builder.first || key > sw.builder.maxKey)
+//@   ensures[remembers_where_the_value_starts] sw.offset == int64(sw.builder.writer.n) && sw.key == key && sw.size == 0
+//@ end
+//@ func streamWriter.Write
+//@   prop C15
+//@   arith math
+//@   requires swOK(sw) && sw.builder.writer.n + len(data) <= 4294967295 && sw.size + len(data) <= 4294967295
+//@   modifies sw.size, sw.builder.writer.out, sw.builder.writer.n
+//@   ensures[rejected_key_writes_nothing] sw.badKey ==> (result0 == 0 && result1 == nil && sw.builder.writer.n == old(sw.builder.writer.n) && sw.builder.writer.out == old(sw.builder.writer.out) && sw.size == old(sw.size))
+//@   ensures[accepted_key_appends_the_bytes] (!sw.badKey && result1 == nil) ==> (sw.builder.writer.n == old(sw.builder.writer.n) + len(data) && all(q, (q >= old(sw.builder.writer.n) && q < sw.builder.writer.n) ==> sw.builder.writer.out[q] == data[q - old(sw.builder.writer.n)]) && sw.size == old(sw.size) + uint32(len(data)))
+//@   ensures[earlier_bytes_untouched] all(i, (i >= 0 && i < old(sw.builder.writer.n)) ==> sw.builder.writer.out[i] == old(sw.builder.writer.out)[i])
+//@ end
+//@ func streamWriter.Commit
+//@   prop C15
+//@   arith math
+//@   requires swOK(sw) && len(sw.builder.offset.values) < 1099511627775 && (!sw.badKey ==> (sw.offset >= 0 && sw.offset <= int64(sw.builder.writer.n) && (sw.builder.first || sw.key > sw.builder.maxKey)))
+//@   modifies sw.badKey, sw.builder.offset.values, sw.builder.offset.max, sw.builder.keys.has, sw.builder.keys.card, sw.builder.minKey, sw.builder.maxKey, sw.builder.first
+//@   ensures[rejected_key_records_nothing] old(sw.badKey) ==> (sw.builder.keys.has == old(sw.builder.keys.has) && sw.builder.keys.card == old(sw.builder.keys.card) && len(sw.builder.offset.values) == old(len(sw.builder.offset.values)) && sw.builder.maxKey == old(sw.builder.maxKey))
+//@   ensures[accepted_key_recorded_once_at_its_start_offset] !old(sw.badKey) ==> (sw.builder.keys.has == store(old(sw.builder.keys.has), sw.key, true) && len(sw.builder.offset.values) == old(len(sw.builder.offset.values)) + 1 && sw.builder.offset.values[old(len(sw.builder.offset.values))] == int(sw.offset) && sw.builder.maxKey == sw.key && sw.badKey)
+//@   ensures[earlier_entries_untouched] forall(i, 0, old(len(sw.builder.offset.values)), sw.builder.offset.values[i] == old(sw.builder.offset.values[i]))
+//@   ensures result == nil
+//@ end
+
+//@ # ---- reader cache and readers behind their interfaces: lookups do not change versions or file metadata ----
+//@ func Cache.GetReader
+//@   modifies nothing
+//@ end
+//@ func Reader.Get
+//@   modifies nothing
+//@ end
